@@ -453,10 +453,12 @@ func main() {
 	depth, nRandA := partA(c)
 	nL := partL(c)
 	nP := partP(c)
+	nS := partS(c)
 	c.Meta.Rule = fmt.Sprintf("A: all sequences of length %d over a 14-call alphabet of NodePoolState methods (1 pool, 2 claims, tight and unlimited node limits, one cross-pool call) plus %d random histories of 5-14 calls over 3 pools x 4 claim names incl. the empty names (protocol-shaped / uniform / with negative arguments), full state compared after every call; "+
 		"L: %d random boundary-seeking inputs each for filterByRemainingResources, subtractMax, Limits.ExceededBy, resources.Subtract; "+
 		"P: %d real Scheduler.Solve passes (one limited pool, random limits/catalog/in-flight nodes/pod batch, anti-affine and plain batches) with a random or worst-case launch choice per NodeClaim. "+
-		"non-trivial = at least two reserve/release/cleanup calls (A), a pass that created a NodeClaim (P); distinct by call sequence / input", depth, nRandA, nL, nP)
+		"S: %d random histories of 3-9 steps on the real static provisioning controller + Provisioner.CreateNodeClaims + Cluster over a fake API (replica changes, failing creates, disruption marks, deletions, informer updates). "+
+		"non-trivial = at least two reserve/release/cleanup calls (A), a pass that created a NodeClaim (P), a history that created a NodeClaim (S); distinct by call sequence / input", depth, nRandA, nL, nP, nS)
 	c.Meta.Exhaustive = true
 	c.Meta.Corr = []string{
 		"state.NodePoolState.{SetNodeClaimMapping,MarkNodeClaim*,Cleanup,ReserveNodeCount,ReleaseNodeCount,UpdateNodeClaim,Reset} = C03.Model.step (full state after every call)",
@@ -465,6 +467,7 @@ func main() {
 		"v1.Limits.ExceededBy = C03.Model.exceeded_by",
 		"resources.Subtract = C03.Model.subtract",
 		"Scheduler.Solve remainingResources bookkeeping (NewScheduler, updateRemainingResources, addToNewNodeClaim) = C03.Model.run_pass on remaining0",
+		"static/provisioning Controller.Reconcile + Provisioner.CreateNodeClaims/Create + Cluster.UpdateNodeClaim/DeleteNodeClaim = C03.Model.sstep (ProvBegin, TkCreate, TkUpdate, TkRelease, SMark, ApiRemove, InfDelete, InfUpdate)",
 	}
 	c.Meta.Extra = map[string]interface{}{"assumptions": []string{
 		"int64 arithmetic of ReserveNodeCount/ReleaseNodeCount is modelled without wrap-around (call sites pass node and replica counts)",
